@@ -8,6 +8,9 @@ import (
 	"path/filepath"
 	"reflect"
 	"strconv"
+	"strings"
+
+	"github.com/tableauio/tableau/format"
 )
 
 // resolve per the property statement: most specific non-zero, else default
@@ -175,6 +178,81 @@ func init() {
 		if !reflect.DeepEqual(got, expected) {
 			return "bad"
 		}
+		// the same resolution for a document workbook (YAML): sheet > book '#' > global > default separators
+		if r := c14YAMLTwin(s, b, g, hasBook, hasGlobal, sep, subsep); r != "ok" {
+			return r
+		}
 		return "ok"
 	})
+}
+
+func c14YAMLTwin(s, b, g level, hasBook, hasGlobal bool, sep, subsep string) string {
+	w := newWorkspace()
+	defer w.cleanup()
+	var sb strings.Builder
+	q := func(v string) string { return strconv.Quote(v) }
+	sb.WriteString("\"@sheet\": \"@TABLEAU\"\n")
+	opts := func(name string, l level) {
+		if l.sep == "" && l.subsep == "" {
+			if name != "\"#\"" {
+				sb.WriteString(name + ":\n")
+			}
+			return
+		}
+		sb.WriteString(name + ":\n")
+		if l.sep != "" {
+			sb.WriteString("  Sep: " + q(l.sep) + "\n")
+		}
+		if l.subsep != "" {
+			sb.WriteString("  Subsep: " + q(l.subsep) + "\n")
+		}
+	}
+	if hasBook {
+		opts("\"#\"", b)
+	}
+	opts("ItemConf", s)
+	sb.WriteString("---\n\"@sheet\": \"@ItemConf\"\nItem:\n  \"@type\": \"map<uint32, Item>\"\n  \"@struct\":\n    Name: string\n" +
+		"    Tags:\n      \"@type\": \"[int32]\"\n      \"@incell\": true\n    Attrs:\n      \"@type\": \"map<int32, string>\"\n      \"@incell\": true\n")
+	sb.WriteString("---\n\"@sheet\": ItemConf\nItem:\n")
+	items := map[string]any{}
+	for k := 0; k < 3; k++ {
+		id := strconv.Itoa(k + 1)
+		sb.WriteString("  " + id + ":\n    Name: n" + id + "\n    Tags: " + q(fmt.Sprintf("%d%s%d", 10+k, sep, 20+k)) +
+			"\n    Attrs: " + q(fmt.Sprintf("1%sa%s2%sb", subsep, sep, subsep)) + "\n")
+		items[id] = map[string]any{"key": float64(k + 1), "name": "n" + id, "tags": []any{float64(10 + k), float64(20 + k)}, "attrs": map[string]any{"1": "a", "2": "b"}}
+	}
+	if err := os.WriteFile(filepath.Join(w.In, "Book.yaml"), []byte(sb.String()), 0o644); err != nil {
+		panic(err)
+	}
+	ro := runOpts{Formats: []format.Format{format.YAML}}
+	if hasGlobal {
+		ro.Header = g.global()
+	}
+	if err := w.genProto(ro); err != nil {
+		if os.Getenv("VERIF_DEBUG") != "" {
+			println("YAML protoerr", err.Error(), sb.String())
+		}
+		return "bad-yaml-proto"
+	}
+	if err := w.genConf(ro); err != nil {
+		if os.Getenv("VERIF_DEBUG") != "" {
+			println("YAML conferr", err.Error(), sb.String())
+		}
+		return "bad-yaml-conf"
+	}
+	data, err := os.ReadFile(filepath.Join(w.Conf, "ItemConf.json"))
+	if err != nil {
+		return "bad-yaml-nofile"
+	}
+	var got map[string]any
+	if err := json.Unmarshal(data, &got); err != nil {
+		return "bad-yaml-json"
+	}
+	if !reflect.DeepEqual(got, map[string]any{"item": items}) {
+		if os.Getenv("VERIF_DEBUG") != "" {
+			println("YAML got", string(data), sb.String())
+		}
+		return "bad-yaml"
+	}
+	return "ok"
 }
